@@ -82,6 +82,34 @@ pub fn log(o: &Opts) {
                 }
             }
         }
+        "deg" => {
+            // the degree function itself: every W of Table 2 (and the smallest values below) x every v at, just below and just
+            // above a threshold of the degree table, 0 and 2^20 - 1
+            let f: [u32; 31] = [0, 5243, 529531, 704294, 791675, 844104, 879057, 904023, 922747, 937311, 948962, 958494, 966438, 973160, 978921,
+                                983914, 988283, 992138, 995565, 998631, 1001391, 1003887, 1006157, 1008229, 1010129, 1011876, 1013490, 1014983,
+                                1016370, 1017662, 1048576];
+            let mut vs: Vec<u32> = vec![];
+            for &t in &f {
+                for d in [-2i64, -1, 0, 1] {
+                    let v = t as i64 + d;
+                    if (0..1048576).contains(&v) {
+                        vs.push(v as u32);
+                    }
+                }
+            }
+            vs.sort();
+            vs.dedup();
+            let mut ws: Vec<u32> = raptorq::verif::SYSTEMATIC_INDICES_AND_PARAMETERS.iter().map(|r| r.4).collect();
+            ws.sort();
+            ws.dedup();
+            for w in ws {
+                let ds: Vec<Value> = vs.iter().map(|&v| match catch(move || raptorq::verif::deg(v, w)) {
+                    Ok(d) => json!(d),
+                    Err(_) => json!("panic"),
+                }).collect();
+                tr.emit(json!({"ev":"deg","w":w,"vs":vs,"ds":ds}));
+            }
+        }
         other => panic!("unknown what {other}"),
     }
     tr.emit(json!({"ev":"end"}));
